@@ -19,7 +19,9 @@ def c01_jobs(tier):
           job('types-block',    'c01tb', 'plain', threads=1, shards=2 if q else 4, timeout=7200),
           job('types-float',    'c01tf', 'plain', threads=1, shards=2 if q else 4, timeout=7200)]
     if not q:
-        js.append(job('truthful-plain-t4', 'c01', 'plain', threads=4, shards=4, timeout=7200, args=['--sub', 'truthful', '--stride=3']))
+        # 4 threads: the parallel code paths (level-scheduled ILU solves, parallel Gauss-Seidel, reductions) under the same oracle.  libgomp with the passive wait
+        # policy is slow on these small systems (measured 25 s per case on the shared machine), hence every 12th case only.
+        js.append(job('truthful-plain-t4', 'c01', 'plain', threads=4, shards=4, timeout=14400, args=['--sub', 'truthful', '--stride=12']))
     return js
 
 # Oracle notes (rule 4 of the harness guide; details next to vf::check_truthful in include/vf/krylov.hpp):
@@ -42,7 +44,7 @@ PROPS['C01'] = dict(
          'types: complex (Hermitian gauge / shifted), 2x2 and 3x3 block-valued, float. A case is non-trivial when the hierarchy has >= 2 levels and at least one solver iterated (cells), '
          'or at least one monitored solve iterated and reported a finite value (other subs). distinct = distinct (sub-check, descriptor) hash.',
     exhaustive_note='the 4 x 9 x 12 (coarsening, relaxation, solver-side) grid is enumerated completely on every model problem of sub-check cells and on a small problem in sub-check richardson',
-    min_nontrivial=dict(quick=120, thorough=1500),
+    min_nontrivial=dict(quick=120, thorough=2000),
     require_obs=dict(quick=['solves'], thorough=['solves']),
     assumptions=COMMON_ASSUME + ['model sub-family bound (contrast <= 10, anisotropy >= 0.1) is a statement about the generator, recorded in observation model_subfamily',
                                  'rounding floors use kappa_2 from a dense SVD (n <= 400) or the M-matrix bound sqrt(||A^-1||_1 ||A^-1||_inf) from a sparse LU solve, and a probe estimate of ||P||'],
